@@ -55,7 +55,7 @@ static void fs_dstack(size_t wi, const std::string &proto, const std::string &ki
 	if (kind == "noncyclic") {
 		std::vector<size_t> ns = quick ? std::vector<size_t>{3, 4} : std::vector<size_t>{3, 4, 5, 6};
 		for (size_t n : ns) {
-			std::vector<std::vector<size_t>> perms; all_noncyclic_or_sample(n, rg, quick ? (cc ? 5 : 6) : (cc ? 12 : 24), &perms);
+			std::vector<std::vector<size_t>> perms; all_noncyclic_or_sample(n, rg, quick ? (cc ? 5 : (direct_vrhe ? 4 : 6)) : (cc ? 12 : 24), &perms);
 			for (auto &pi : perms) {
 				auto st = make_dstmt(W, tm, rg, n, pi, false);
 				if (truth(*st)) { count("skipped_true/noncyclic"); continue; }
@@ -66,7 +66,8 @@ static void fs_dstack(size_t wi, const std::string &proto, const std::string &ki
 		}
 	} else {
 		std::vector<size_t> ns = quick ? std::vector<size_t>{2, 3} : std::vector<size_t>{2, 3, 4, 5, 8};
-		if (quick && !cc && kind == "retype") ns.push_back(5);
+		if (quick && wi > 0) ns = {3};                                   // second world of the quick tier: one size
+		if (quick && wi == 0 && !cc && kind == "retype") ns.push_back(5);
 		for (size_t n : ns) {
 			std::vector<size_t> pi = rot ? rotation(n, rg.below(n)) : rand_perm(rg, n);
 			auto st0 = make_dstmt(W, tm, rg, n, pi, n >= 4 && rg.coin());
@@ -147,7 +148,7 @@ static void fs_qstack(bool cyclic, const std::string &kind) {
 						// recomputed from it: a consistent "shuffle" by a mask that changes the type of one card
 						size_t kk = a % 2, ww = (a / 2) % W.qr_w; mpz_ptr b = &st->ss[pos].second.b[kk][ww]; mpz_set_ui(b, (mpz_get_ui(b) & 1UL) ^ 1UL);
 						tm.TMCG_MixStack(st->s, st->s2P, st->ss, *W.ring); st->same_view();
-						detail = "witness: mask bit b[" + std::to_string(kk) + "][" + std::to_string(ww) + "] of the card secret for input card " + std::to_string(pos) + " flipped (type-changing mask), s2 = MixStack(s, witness)"; P = P_NONE;
+						detail = "witness: mask bit b[" + std::to_string(kk) + "][" + std::to_string(ww) + "] of the card secret for input card " + std::to_string(pos) + " flipped (type-changing mask), s2 = MixStack(s, witness)"; P = P_ALL1;   // a verifier that checks the revealed secrets can be passed with fresh (type-preserving) re-mix secrets only, i.e. for 1^k
 					} else {
 						detail = alter_qstack(W, tm, *st, st->s2V, kind, pos, a, ar);
 						if (strat == "both") st->s2P = st->s2V;
@@ -348,7 +349,7 @@ static void fs_qmask(const std::string &kind) {
 			std::vector<std::string> strategies = {"both", "vonly"}; if (kind == "maskflip") strategies = {"fitting-witness"};
 			for (auto &strat : strategies) {
 				auto st = std::make_shared<QMask>(*st0); mpz_srcptr m = W.ring->keys[kk].m; std::string detail; Prepared P = strat == "both" ? P_ALL1 : P_ALL0;
-				if (kind == "maskflip") { mpz_ptr b = &st->cs.b[kk][ww]; mpz_set_ui(b, (mpz_get_ui(b) & 1UL) ^ 1UL); tm.TMCG_MaskCard(st->c, st->ccP, st->cs, *W.ring); st->ccV = st->ccP; P = P_NONE; detail = "witness: mask bit b flipped (mask changes the type), cc = MaskCard(c, witness)"; }
+				if (kind == "maskflip") { mpz_ptr b = &st->cs.b[kk][ww]; mpz_set_ui(b, (mpz_get_ui(b) & 1UL) ^ 1UL); tm.TMCG_MaskCard(st->c, st->ccP, st->cs, *W.ring); st->ccV = st->ccP; P = P_ALL1; detail = "witness: mask bit b flipped (mask changes the type), cc = MaskCard(c, witness)"; }
 				else { mpz_ptr z = &st->ccV.z[kk][ww]; if (kind == "retype") { mpz_mul(z, z, W.ring->keys[kk].y); detail = "cc.z multiplied by y (type bit flipped)"; } else { MZ u; jacobi_minus_one(u, m, rg); mpz_mul(z, z, u); detail = "cc.z multiplied by an element of Jacobi symbol -1"; } mpz_mod(z, z, m); if (strat == "both") st->ccP = st->ccV; }
 				// really false: the type of cc differs from the type of c (or cc is no card at all)
 				if (qro.wellformed(st->ccV) && qro.type(st->ccV) == qro.type(st->c)) { count("skipped_true/" + kind); continue; }
